@@ -18,7 +18,7 @@ LEVEL_TEXT = ("Static structural proof of necessary conditions: (R12.1) every ke
               "sidecar column < sidecar key < row, row is compared numerically, and sort_issues sorts with a key "
               "function only; (R12.5) replace_tag_references converts every non-container, non-number leaf with str(). "
               "That offsets lie inside the text/span and select the quoted fragment is NOT decided.")
-LEVEL_EXTRA = 'Added after the seeded evaluation: (R12.6) an issue taken from a list, modified and listed again is a copy. (R12.7) the suffix-appending step skips issues it already decorated; (R12.8) every parameter of a validator function is used; textual sort keys are compared as str.'
+LEVEL_EXTRA = 'Added after the seeded evaluation: (R12.6) an issue taken from a list, modified and listed again is a copy. (R12.7) the suffix-appending step skips issues it already decorated; (R12.8) every parameter of a validator function is used; textual sort keys are compared as str. (R12.9) a parameter is handed on to every repository callee that takes a parameter of the same name (11 frozen exceptions package-wide).'
 
 ENTRY_POINTS = ["HedValidator.validate", "SidecarValidator.validate", "SpreadsheetValidator.validate",
                 "schema_compliance.check_compliance", "BidsDataset.validate", "Sidecar.validate", "BaseInput.validate"]
@@ -272,3 +272,8 @@ def run(ctx):
                           "%s accepts `%s` and never reads it: callers pass it to place the issue inside a longer tag (the value of "
                           "`Def/MyDef/ab$c`) or to give it the Def code, so the offsets select the wrong characters / the code is lost" % (f.short, p_))
     ctx.floor("R12.8", "parameters of validator functions", n_par, 150)
+
+    # ---------------- R12.9: parameters are handed on to same-named parameters of repository callees
+    from sa.forward import check_forwarding
+    nfw = check_forwarding(ctx, "R12.9", [f for f in prog.functions.values() if f.module.name.startswith(('hed.errors', 'hed.validator', 'hed.models.sidecar', 'hed.models.base_input', 'hed.models.hed_string'))], 'e.g. the warnings switch, the error handler, the name shown in issues')
+    ctx.floor("R12.9", "same-named parameter sites", nfw, 1)
